@@ -412,6 +412,11 @@ class Engine:
                     if self.contracts[q].d.get('mutates'):
                         # the callee edits its receiver: re-read the receiver AFTER the arguments were evaluated (they may have
                         # edited it too), and write the new value back to the variable it came from
+                        if isinstance(f.value, ast.Call) and not ctx.spec:
+                            # a temporary (e.g. Parser(text).parse()): the edited receiver is dropped with the temporary
+                            tmp = '__tmp_recv%d' % getattr(n, 'lineno', 0)
+                            ctx.env[tmp] = rr
+                            return self.call_bound(q, [('self', rr)], pos, kw, ctx, getattr(n, 'lineno', 0), writeback={'self': tmp})
                         if not isinstance(f.value, ast.Name):
                             raise OutOfSubset(f'mutating method .{f.attr} on a non-variable receiver (line {getattr(n, "lineno", "?")})')
                         rr = ev.ev(f.value, ctx)
